@@ -31,10 +31,11 @@ REQUIRED_COUNTERS = {'c08_explored_jobs': 12, 'c08_placements_reached': 40,
                      'c08_jobs_checked': 100}
 SHARD_TIMEOUT = {'quick': 900, 'thorough': 5400}
 MONITORS = [monitors.c08_ownership]
-LAYOUTS = ['d2', 's1d2', 'd1M1d2', 'h1d2']
+LAYOUTS = ['d2', 's1d2', 'd1M1d2', 'h1d2', 'd3']
 SCEN = ['first_eval', 'queue_entry', 'queue_merge', 'second_entry',
         'two_merge', 'source_moved', 'decline', 'reset', 'rebuild',
-        'delete_queues', 'force_merge', 'create_branch', 'delete_branch']
+        'delete_queues', 'force_merge', 'create_branch', 'delete_branch',
+        'conflict_later']
 
 
 def combos(seed):
